@@ -162,6 +162,8 @@ impl PageLockShard {
 
     fn try_cleanup(&self, page_id: PageId, entry: &PageLockEntry) {
         if entry.release() {
+            #[cfg(kahflane_turdb_verif)]
+            crate::verif::yield_point("pl.cleanup.released");
             let mut map = self.locks.lock();
             if entry.ref_count.load(Ordering::Acquire) == 0 {
                 map.remove(&page_id);
@@ -355,6 +357,8 @@ impl PageLockManager {
         let shard = &self.page_shards[page_id.shard_index()];
         let entry = shard.get_or_create(page_id);
 
+        #[cfg(kahflane_turdb_verif)]
+        crate::verif::yield_point("pl.read.got_entry");
         let contended = entry.lock.try_read().is_none();
 
         let guard = entry.lock.read();
@@ -374,6 +378,8 @@ impl PageLockManager {
         let shard = &self.page_shards[page_id.shard_index()];
         let entry = shard.get_or_create(page_id);
 
+        #[cfg(kahflane_turdb_verif)]
+        crate::verif::yield_point("pl.write.got_entry");
         let contended = entry.lock.try_write().is_none();
 
         let guard = entry.lock.write();
@@ -396,6 +402,14 @@ impl PageLockManager {
             .into_iter()
             .map(|(table_id, page_no)| self.page_write(table_id, page_no))
             .collect()
+    }
+
+    /// Number of live page-lock entries and table-lock entries (verification accessor).
+    #[cfg(kahflane_turdb_verif)]
+    pub fn verif_entry_counts(&self) -> (usize, usize) {
+        let pages = self.page_shards.iter().map(|s| s.locks.lock().len()).sum();
+        let tables = self.table_shards.iter().map(|s| s.locks.read().len()).sum();
+        (pages, tables)
     }
 
     pub fn stats(&self) -> &LockStats {
